@@ -76,6 +76,7 @@ def run(ctx):
                     names=["bubble", "sunrise", "banana4", "banana5", "triangle", "double_triangle", "tadpole"], kinds=("uniform", "angles", "tiny_xi", "zero_xi"))
     S.run(ss)
     SC.corr_qvec(ctx, ss)
+    SC.generic_scalar_guard(ctx, ss[:: 3], k=8)
     for s in ss:
         a, c, r = s["impl"], s["case"], s["routing"]
         n, D, L = len(c["edges"]), c["D"], r["L"]
